@@ -490,14 +490,31 @@ pub fn make_server_for(cfg: usize, msg: usize) -> Server<Cat> {
         s.set_tsig_keys(keys());
     }
     if matches!(cfg, 5 | 6 | 9) {
-        let mut p = RrlParams::new(2, 2, 2, 1).unwrap();
+        // the corners of what RrlParams accepts: smallest and largest rate x window products,
+        // prefix lengths 0 and 32/64, a one-entry table
+        let mut p = match cfg {
+            5 => RrlParams::new(1, 1, 1, 1).unwrap(),
+            6 => RrlParams::new(2, u32::MAX, 1 << 31, 1).unwrap(),
+            _ => RrlParams::new(u32::MAX, 1, 3, 1).unwrap(),
+        };
         // all three slip regimes: always slip (1), random (2), always drop (0)
         p.set_slip(match cfg {
             5 => 1,
             6 => 2,
             _ => 0,
         });
-        p.set_size(3).unwrap();
+        p.set_size(if cfg == 5 { 1 } else { 3 }).unwrap();
+        match cfg {
+            5 => {
+                p.set_ipv4_prefix_len(0).unwrap();
+                p.set_ipv6_prefix_len(0).unwrap();
+            }
+            6 => {
+                p.set_ipv4_prefix_len(32).unwrap();
+                p.set_ipv6_prefix_len(64).unwrap();
+            }
+            _ => {}
+        }
         s.set_rrl_params(Some(p));
     }
     let payload = match cfg {
@@ -568,7 +585,7 @@ impl Prop for C01 {
         format!("{file}|{masked}")
     }
     fn rule() -> String {
-        format!("one execution = one (request shape, server configuration) pair: {} shapes quick / 1000 thorough (plain, EDNS with options and odd versions, big RRsets with swept payload sizes, TSIG-signed with known/unknown keys, truncated MACs and maximal 255-octet key/algorithm names, extra records in every section, compressed and mixed-case names, opcodes 0-15, QTYPE ANY/AXFR/IXFR/meta, QCLASS ANY/CH, NOTIFY/UPDATE-shaped, two questions, misplaced OPT/TSIG, header only, answers of more than 16 KiB made of name-bearing records, question-less requests with OPT (odd versions) or TSIG) x {} configurations (empty catalog; loaded/NotYetLoaded/FailedToLoad entries; zones with malformed stored RDATA in classes IN and CH, missing or malformed SOA; two configurations whose zones are drawn from a seed per request shape: every owner the corpus asks about holds 0-3 RRsets of assorted types with valid, cut, empty, random, pointer-bearing or over-long RDATA; key sets; RRL slip 0/1/2; payload 512/1232/65535); per pair, exhaustively: truncation to every length, at every offset substitution by 10 values, each header count set to 0/+1/0xffff, every RR's RDLENGTH set to 0..80, the advertised EDNS payload size set to every value 0..1400 (+ large ones), junk of 1/2/11/300 octets appended, tail duplicated, both transports; then seeded random pairs of those faults. Every pair is non-trivial and distinct by construction", 200, N_CFG)
+        format!("one execution = one (request shape, server configuration) pair: {} shapes quick / 1000 thorough (plain, EDNS with options and odd versions, big RRsets with swept payload sizes, TSIG-signed with known/unknown keys, truncated MACs and maximal 255-octet key/algorithm names, extra records in every section, compressed and mixed-case names, opcodes 0-15, QTYPE ANY/AXFR/IXFR/meta, QCLASS ANY/CH, NOTIFY/UPDATE-shaped, two questions, misplaced OPT/TSIG, header only, answers of more than 16 KiB made of name-bearing records, question-less requests with OPT (odd versions) or TSIG) x {} configurations (empty catalog; loaded/NotYetLoaded/FailedToLoad entries; zones with malformed stored RDATA in classes IN and CH, missing or malformed SOA; two configurations whose zones are drawn from a seed per request shape: every owner the corpus asks about holds 0-3 RRsets of assorted types with valid, cut, empty, random, pointer-bearing or over-long RDATA; key sets; RRL slip 0/1/2 with rate x window from 1 to 2^32-1, prefix lengths 0, default and 32/64, a one-entry table, simulated time passing between requests (0, seconds, a minute, a day, 400 days); sources IPv4, IPv6, IPv4-mapped, all-ones and unspecified; payload 512/1232/65535); per pair, exhaustively: truncation to every length, at every offset substitution by 10 values, each header count set to 0/+1/0xffff, every RR's RDLENGTH set to 0..80, the advertised EDNS payload size set to every value 0..1400 (+ large ones), junk of 1/2/11/300 octets appended, tail duplicated, both transports; then seeded random pairs of those faults. Every pair is non-trivial and distinct by construction", 200, N_CFG)
     }
     fn assumptions() -> Vec<String> {
         vec![
@@ -616,6 +633,8 @@ struct Harness {
     seen: std::collections::HashSet<u64>,
     /// an unlisted violation has been recorded (it is never replaced)
     unlisted_recorded: bool,
+    /// number of calls so far (drives the simulated time that passes between requests)
+    calls: u64,
 }
 impl Harness {
     fn call(&mut self, msg: &[u8], tcp: bool, what: &str) {
@@ -629,7 +648,23 @@ impl Harness {
                 simrt::probe("c01_distinct_inputs");
             }
         }
-        let src = IpAddr::V4(Ipv4Addr::new(203, 0, 113, (msg.len() % 200) as u8));
+        // simulated time passes between requests (the rate limiter refills per elapsed second):
+        // mostly none, now and then seconds, a minute, a day, more than a year
+        self.calls += 1;
+        if self.calls % 53 == 0 {
+            const GAPS_MS: &[u64] = &[2_200, 1_000, 999, 61_000, 86_400_000, 2_200, 400 * 86_400_000];
+            simrt::advance(std::time::Duration::from_millis(GAPS_MS[(self.calls / 53) as usize % GAPS_MS.len()]));
+        }
+        // source addresses of every family the transport can hand over (the rate limiter masks them)
+        let low = (msg.len() % 200) as u8;
+        let src = match msg.len() % 7 {
+            0 => IpAddr::V6(std::net::Ipv6Addr::new(0x2001, 0xdb8, 0, low as u16, 0, 0, 0, 1)),
+            1 => IpAddr::V6(Ipv4Addr::new(203, 0, 113, low).to_ipv6_mapped()),
+            2 => IpAddr::V6(std::net::Ipv6Addr::new(0xffff, 0xffff, 0xffff, 0xffff, 0xffff, 0xffff, 0xffff, 0xffff)),
+            3 => IpAddr::V4(Ipv4Addr::new(255, 255, 255, 255)),
+            4 => IpAddr::V6(std::net::Ipv6Addr::UNSPECIFIED),
+            _ => IpAddr::V4(Ipv4Addr::new(203, 0, 113, low)),
+        };
         let t = if tcp { Transport::Tcp } else { Transport::Udp };
         let server = &self.server;
         let buf = &mut self.buf;
@@ -703,7 +738,7 @@ fn apply_fault(base: &[u8], r: &mut SplitMix) -> Vec<u8> {
 
 fn run(scn: &Scn) {
     simrt::start(world_cfg(13, FaultCfg::none()));
-    let mut h = Harness { msg: scn.msg, cfg: scn.cfg, server: make_server_for(scn.cfg, scn.msg), buf: vec![0u8; 65535], sites: vec![], seen: std::collections::HashSet::new(), unlisted_recorded: false };
+    let mut h = Harness { msg: scn.msg, cfg: scn.cfg, server: make_server_for(scn.cfg, scn.msg), buf: vec![0u8; 65535], sites: vec![], seen: std::collections::HashSet::new(), unlisted_recorded: false, calls: 0 };
     if let Some((hex, tcp)) = &scn.only {
         h.call(&crate::util::unhex(hex), *tcp, "replay of one input");
         simrt::finish();
